@@ -126,6 +126,88 @@ Qed.
 
 
 (* ---------------------------------------------------------------------- *)
+(* Document.find / find_backwards with a count: the count-th match of the
+   non-overlapping scan *)
+Lemma doc_find_nth (d : doc) (sub : str) (icp ic : bool) (count : Z) :
+  0 <= dcur d <= len (dtext d) -> 1 <= count ->
+  let lo := Z.to_nat (if icp then dcur d else dcur d + 1) in
+  match doc_find ceq d sub icp ic count with
+  | Some r => (if icp then 0 else 1) <= r /\
+              nth_match ceq ic sub (dtext d) lo (Z.to_nat (count - 1)) (Z.to_nat (dcur d + r))
+  | None => forall p, ~ nth_match ceq ic sub (dtext d) lo (Z.to_nat (count - 1)) p
+  end.
+Proof.
+  intros Hc Hcount lo. destruct d as [t c]; cbn [dcur dtext] in *.
+  assert (Hta : text_after_cursor (mkdoc t c) = skipn (Z.to_nat c) t).
+  { unfold text_after_cursor; cbn [dtext dcur]. apply slice_from_in_range; lia. }
+  assert (Hct : (Z.to_nat c <= length t)%nat) by (unfold len in Hc; lia).
+  unfold doc_find. rewrite Hta.
+  destruct (count <? 1) eqn:Ec; [apply Z.ltb_lt in Ec; lia|].
+  destruct icp; cbv iota.
+  - pose proof (find_nth_spec ceq ic sub t (Z.to_nat (count - 1)) (Z.to_nat c) 0 Hct) as H.
+    destruct (find_nth ceq ic sub (skipn (Z.to_nat c) t) 0 0 (Z.to_nat (count - 1))) as [j|].
+    + destruct H as [Hj Hn]. split; [exact Hj|]. subst lo.
+      replace (Z.to_nat (c + j)) with (Z.to_nat c + Z.to_nat (j - 0))%nat by lia. exact Hn.
+    + exact H.
+  - destruct (len (skipn (Z.to_nat c) t) =? 0) eqn:E0.
+    + apply Z.eqb_eq in E0. rewrite len_skipn in E0. intros p Hp.
+      destruct (nth_match_occ ceq ic _ _ _ _ _ Hp) as [Hlo Hocc].
+      apply (occurs_at_bound ceq ic) in Hocc. subst lo. unfold len in *. lia.
+    + apply Z.eqb_neq in E0. rewrite len_skipn in E0.
+      assert (Hsl : slice_from (skipn (Z.to_nat c) t) 1 = skipn (S (Z.to_nat c)) t).
+      { rewrite slice_from_in_range; [|lia|rewrite len_skipn; lia].
+        rewrite skipn_skipn'. f_equal. change (Z.to_nat 1) with 1%nat. lia. }
+      rewrite Hsl.
+      assert (Hct' : (S (Z.to_nat c) <= length t)%nat) by (unfold len in *; lia).
+      pose proof (find_nth_spec ceq ic sub t (Z.to_nat (count - 1)) (S (Z.to_nat c)) 0 Hct') as H.
+      assert (Elo : lo = S (Z.to_nat c)) by (subst lo; lia). rewrite Elo.
+      destruct (find_nth ceq ic sub (skipn (S (Z.to_nat c)) t) 0 0 (Z.to_nat (count - 1))) as [j|].
+      * destruct H as [Hj Hn]. split; [lia|].
+        replace (Z.to_nat (c + (j + 1))) with (S (Z.to_nat c) + Z.to_nat (j - 0))%nat by lia. exact Hn.
+      * exact H.
+Qed.
+
+Lemma doc_find_backwards_nth (d : doc) (sub : str) (ic : bool) (count : Z) :
+  0 <= dcur d <= len (dtext d) -> 1 <= count ->
+  let B := firstn (Z.to_nat (dcur d)) (dtext d) in
+  match doc_find_backwards ceq d sub ic count with
+  | Some r => 0 <= dcur d + r /\ dcur d + r + len sub <= dcur d /\
+              nth_match ceq ic (rev sub) (rev B) 0 (Z.to_nat (count - 1)) (Z.to_nat (- r - len sub)) /\
+              occurs ic sub (dtext d) (dcur d + r)
+  | None => forall p, ~ nth_match ceq ic (rev sub) (rev B) 0 (Z.to_nat (count - 1)) p
+  end.
+Proof.
+  intros Hc Hcount B. destruct d as [t c]; cbn [dcur dtext] in *.
+  assert (Htb : text_before_cursor (mkdoc t c) = B).
+  { unfold text_before_cursor; cbn [dtext dcur]. apply slice_to_in_range; lia. }
+  assert (Hct : (Z.to_nat c <= length t)%nat) by (unfold len in Hc; lia).
+  assert (HB : length B = Z.to_nat c) by (subst B; rewrite firstn_length; lia).
+  unfold doc_find_backwards. rewrite Htb.
+  destruct (count <? 1) eqn:Ec; [apply Z.ltb_lt in Ec; lia|].
+  pose proof (find_nth_spec ceq ic (rev sub) (rev B) (Z.to_nat (count - 1)) O 0 ltac:(lia)) as H.
+  cbn [skipn] in H.
+  destruct (find_nth ceq ic (rev sub) (rev B) 0 0 (Z.to_nat (count - 1))) as [j|]; [|exact H].
+  destruct H as [Hj Hn]. cbn [Nat.add] in Hn. rewrite Z.sub_0_r in Hn.
+  destruct (nth_match_occ ceq ic _ _ _ _ _ Hn) as [_ Hocc].
+  pose proof (occurs_at_bound ceq ic _ _ _ Hocc) as Hb. rewrite !rev_length, HB in Hb.
+  apply (occurs_at_rev ceq ic) in Hocc. rewrite !rev_involutive, !rev_length, HB in Hocc.
+  apply (occurs_at_firstn ceq ic) in Hocc; [|exact Hct]. destruct Hocc as [Hocc Hle].
+  unfold len. split; [lia|]. split; [lia|]. split.
+  - replace (Z.to_nat (- (- j - Z.of_nat (length sub)) - Z.of_nat (length sub))) with (Z.to_nat j) by lia. exact Hn.
+  - split; [lia|].
+    replace (Z.to_nat (c + (- j - Z.of_nat (length sub)))) with (Z.to_nat c - Z.to_nat j - length sub)%nat by lia.
+    exact Hocc.
+Qed.
+
+Lemma doc_find_count_below_1 (d : doc) (sub : str) (icp ic : bool) (count : Z) :
+  count < 1 -> doc_find ceq d sub icp ic count = None /\ doc_find_backwards ceq d sub ic count = None.
+Proof.
+  intros Hc. unfold doc_find, doc_find_backwards.
+  destruct (count <? 1) eqn:E; [|apply Z.ltb_ge in E; lia].
+  split; [|reflexivity]. destruct icp; [reflexivity|]. destruct (len (text_after_cursor d) =? 0); reflexivity.
+Qed.
+
+(* ---------------------------------------------------------------------- *)
 (* ranges, visiting orders, first_some *)
 
 Lemma zrange_snoc a k : zrange a (S k) = zrange a k ++ [a + Z.of_nat k].
@@ -580,15 +662,19 @@ Qed.
 (* ---------------------------------------------------------------------- *)
 (* the session *)
 
+Lemma len_pos_nonnil (f : str) : f <> [] -> (len f =? 0) = false.
+Proof.
+  intros Hf. apply Z.eqb_neq. destruct f as [|x0 l0]; [congruence|].
+  rewrite len_cons. pose proof (len_nonneg l0). lia.
+Qed.
+
 Lemma accept_preview s :
   Inv (main s) -> searching s = true -> field s <> [] ->
   bdoc (main (accept_search ceq s)) = preview ceq s /\
   searching (accept_search ceq s) = false /\ Inv (main (accept_search ceq s)).
 Proof.
-  intros HI Hs Hf. unfold accept_search, preview. rewrite Hs.
-  assert (E : len (field s) =? 0 = false).
-  { apply Z.eqb_neq. destruct (field s) as [|x0 l0]; [congruence|]. rewrite len_cons. pose proof (len_nonneg l0). lia. }
-  rewrite E. unfold the_state. cbn [negb andb main field ss_text ss_dir ign].
+  intros HI Hs Hf. unfold accept_search, preview. rewrite Hs, (len_pos_nonnil _ Hf).
+  unfold the_state, with_state. cbn [negb andb main field ss_text ss_dir ign].
   pose proof (preview_is_apply (main s) (mkss (field s) (ss_dir s) (ign s)) HI) as H.
   unfold stop_search, with_main. cbn [main searching]. split; [exact H|]. split; [reflexivity|].
   apply (apply_search_inv _ _ _ _ HI).
@@ -607,6 +693,20 @@ Proof.
   unfold post. rewrite Hv, Hs'. destruct (vi s); cbn [andb negb with_main main searching]; auto.
 Qed.
 
+(* field edits keep everything but the field *)
+Definition same_but_field (s s' : sess) : Prop :=
+  main s' = main s /\ searching s' = searching s /\ ss_text s' = ss_text s /\
+  ss_dir s' = ss_dir s /\ vi s' = vi s /\ ign s' = ign s.
+
+Lemma with_field_same s f c : same_but_field s (with_field s f c).
+Proof. unfold same_but_field, with_field; cbn. repeat split. Qed.
+
+Lemma same_refl s : same_but_field s s.
+Proof. unfold same_but_field. repeat split. Qed.
+
+Lemma post_searching s : searching s = true -> post s = s.
+Proof. intros H. unfold post. rewrite H. now rewrite andb_false_r. Qed.
+
 Lemma typing_pure s k s' :
   searching s = true -> typing_key k ->
   (vi s = false \/ k <> KBackspace \/ field s <> []) ->
@@ -614,24 +714,29 @@ Lemma typing_pure s k s' :
   main s' = main s /\ searching s' = true /\ ss_text s' = ss_text s /\ ss_dir s' = ss_dir s /\ vi s' = vi s.
 Proof.
   intros Hs Hk Hv. unfold key_step. rewrite Hs.
-  assert (Hpost : forall f, post (mksess (main s) f (ss_text s) (ss_dir s) (ign s) true (vi s))
-                            = mksess (main s) f (ss_text s) (ss_dir s) (ign s) true (vi s)).
-  { intros f. unfold post; cbn [vi searching]. now rewrite andb_false_r. }
+  assert (Hgen : forall t, same_but_field s t -> Some (post t) = Some s' ->
+     main s' = main s /\ searching s' = true /\ ss_text s' = ss_text s /\ ss_dir s' = ss_dir s /\ vi s' = vi s).
+  { intros t (H1 & H2 & H3 & H4 & H5 & H6). rewrite post_searching by congruence.
+    intros [= <-]. repeat split; congruence. }
   destruct k; try contradiction.
-  - rewrite Hpost. intros [= <-]. cbn. auto.
+  - apply Hgen. apply with_field_same.
   - assert (E : vi s && (len (field s) =? 0) = false).
     { destruct Hv as [Hv|[Hv|Hv]]; [now rewrite Hv|congruence|].
-      apply andb_false_iff; right. apply Z.eqb_neq.
-      destruct (field s) as [|x0 l0]; [congruence|]. rewrite len_cons. pose proof (len_nonneg l0). lia. }
-    rewrite E, Hpost. intros [= <-]. cbn. auto.
-  - rewrite Hpost. intros [= <-]. cbn. auto.
-  - rewrite Hpost. intros [= <-]. cbn. auto.
+      apply andb_false_iff; right. now apply len_pos_nonnil. }
+    rewrite E. apply Hgen. unfold field_backspace. destruct (0 <? fcur s); [apply with_field_same|apply same_refl].
+  - apply Hgen. apply with_field_same.
+  - apply Hgen. apply with_field_same.
+  - apply Hgen. apply with_field_same.
+  - apply Hgen. apply with_field_same.
+  - apply Hgen. apply with_field_same.
+  - apply Hgen. apply with_field_same.
+  - apply Hgen. unfold field_delete. destruct (fcur s <? len (field s)); [apply with_field_same|apply same_refl].
 Qed.
 
 Lemma typing_pure_seq ks : forall s s',
   searching s = true -> vi s = false -> Forall typing_key ks ->
   keys_run ceq s ks = Some s' ->
-  main s' = main s /\ searching s' = true /\ ss_text s' = ss_text s /\ ss_dir s' = ss_dir s.
+  main s' = main s /\ searching s' = true /\ ss_text s' = ss_text s /\ ss_dir s' = ss_dir s /\ vi s' = false.
 Proof.
   induction ks as [|k ks IH]; intros s s' Hs Hv Hk.
   - cbn. intros [= <-]. auto.
@@ -639,7 +744,7 @@ Proof.
     inversion Hk as [|? ? Hk1 Hk2]; subst.
     destruct (typing_pure _ _ _ Hs Hk1 (or_introl Hv) E) as (Hm & Hs1 & Ht & Hd & Hv1).
     intros E2. rewrite Hv in Hv1.
-    destruct (IH _ _ Hs1 Hv1 Hk2 E2) as (Hm2 & Hs2 & Ht2 & Hd2).
+    destruct (IH _ _ Hs1 Hv1 Hk2 E2) as (Hm2 & Hs2 & Ht2 & Hd2 & Hv2).
     repeat split; congruence.
 Qed.
 
@@ -647,14 +752,71 @@ Lemma start_pure s k s' :
   searching s = false -> (k = KCr \/ k = KCs \/ k = KSlash \/ k = KQuestion) ->
   (vi s = true -> k = KSlash \/ k = KQuestion) ->
   (vi s = false -> k = KCr \/ k = KCs) ->
-  key_step ceq s k = Some s' -> main s' = main s /\ searching s' = true.
+  key_step ceq s k = Some s' -> main s' = main s /\ searching s' = true /\ vi s' = vi s.
 Proof.
   intros Hs Hk Hv1 Hv0. unfold key_step. rewrite Hs.
   destruct (vi s) eqn:Ev.
   - destruct (Hv1 eq_refl) as [-> | ->]; unfold post, start_search; cbn [vi searching andb negb];
-      rewrite Ev; cbn [andb]; intros [= <-]; now split.
+      rewrite Ev; cbn [andb]; intros [= <-]; cbn [main searching vi]; auto.
   - destruct (Hv0 eq_refl) as [-> | ->]; unfold post, start_search; cbn [vi searching andb negb];
-      rewrite Ev; cbn [andb]; intros [= <-]; now split.
+      rewrite Ev; cbn [andb]; intros [= <-]; cbn [main searching vi]; auto.
+Qed.
+
+(* abort (C-g): the key itself touches nothing of the main buffer (a Vi
+   session re-applies its end-of-line cursor rule) *)
+Lemma abort_pure s s' :
+  searching s = true -> key_step ceq s KCg = Some s' ->
+  searching s' = false /\ main s' = (if vi s then fix_vi (main s) else main s).
+Proof.
+  intros Hs. unfold key_step. rewrite Hs. unfold post, stop_search. cbn [vi searching negb andb main with_main].
+  rewrite andb_true_r. destruct (vi s); intros [= <-]; cbn [main searching]; auto.
+Qed.
+
+(* a session that only starts, edits the field and aborts: the main buffer is
+   exactly as it was before the session started *)
+Lemma start_typing_abort s k0 ks s1 s2 s3 :
+  searching s = false -> vi s = false -> (k0 = KCr \/ k0 = KCs) ->
+  key_step ceq s k0 = Some s1 -> Forall typing_key ks -> keys_run ceq s1 ks = Some s2 ->
+  key_step ceq s2 KCg = Some s3 ->
+  main s3 = main s /\ searching s3 = false.
+Proof.
+  intros Hs Hv Hk0 E1 Hks E2 E3.
+  destruct (start_pure s k0 s1 Hs) as (Hm1 & Hs1 & Hv1); auto.
+  { destruct Hk0; auto. } { congruence. }
+  rewrite Hv in Hv1.
+  destruct (typing_pure_seq ks s1 s2 Hs1 Hv1 Hks E2) as (Hm2 & Hs2 & _ & _ & Hv2).
+  destruct (abort_pure s2 s3 Hs2 E3) as (Hs3 & Hm3). rewrite Hv2 in Hm3.
+  split; congruence.
+Qed.
+
+(* Vi '*' / '#' are apply_search(include_current_position=False, count) for the
+   word under the cursor, FORWARD / BACKWARD: every search theorem applies
+   with st := mkss word dir (ign s) *)
+Lemma star_is_search s k c w s' :
+  vi s = true -> searching s = false -> (k = KStar c w \/ k = KHash c w) ->
+  key_step ceq s k = Some s' ->
+  let dir := match k with KStar _ _ => 0 | _ => 1 end in
+  main s' = fix_vi (apply_search ceq (main s) (mkss w dir (ign s)) false c) /\
+  ss_text s' = w /\ ss_dir s' = dir /\ searching s' = false.
+Proof.
+  intros Hv Hs Hk. unfold key_step. rewrite Hs, Hv.
+  destruct Hk as [-> | ->]; cbv zeta; unfold star_search, post, with_main, with_state, the_state;
+    cbn [vi searching main ss_text ss_dir ign field fcur andb negb]; rewrite ?Hv, ?Hs; cbn [andb negb];
+    intros [= <-]; cbn [main ss_text ss_dir searching]; repeat split; try reflexivity; exact Hs.
+Qed.
+
+Lemma star_lands s c w :
+  Inv (main s) ->
+  forall dir, match search ceq (main s) (mkss w dir (ign s)) false c with
+  | SFound w' c' =>
+      apply_search ceq (main s) (mkss w dir (ign s)) false c = moved (main s) w' c' /\
+      occurs (ign s) w (entry (wl (main s)) w') c'
+  | SNone => apply_search ceq (main s) (mkss w dir (ign s)) false c = main s
+  end.
+Proof.
+  intros HI dir. rewrite (apply_search_spec _ _ _ _ HI).
+  destruct (search ceq (main s) (mkss w dir (ign s)) false c) as [|w' c'] eqn:E; [reflexivity|].
+  split; [reflexivity|]. exact (proj2 (search_real _ _ _ _ _ _ HI E)).
 Qed.
 
 End Facts.
@@ -664,13 +826,26 @@ End Facts.
    for "a", nothing typed in the search field.  What is displayed is the
    current line; Enter moves to the first line. *)
 Definition f1_witness : sess :=
-  mksess (mksbuf [[98; 97]; [97]] 1 0) [] [97] 1 false true false.
+  mksess (mksbuf [[98; 97]; [97]] 1 0) [] 0 [97] 1 false true false.
 
 Lemma accept_empty_field_refuted :
   exists s, Inv (main s) /\ searching s = true /\ field s = [] /\
     bdoc (main (accept_search ceq_tab s)) <> preview ceq_tab s.
 Proof.
   exists f1_witness. split; [|split; [reflexivity|split; [reflexivity|]]].
+  - unfold Inv. vm_compute. repeat split; try reflexivity; intro; discriminate.
+  - vm_compute. discriminate.
+Qed.
+
+(* abort does NOT undo what C-r / C-s pressed again during the session did
+   (the docstring of abort_search says "restore the original line"): lines "a"
+   and "b", buffer on "b"; C-r, a, C-r moves to line 0; C-g leaves it there. *)
+Lemma abort_does_not_restore :
+  exists s ks s', Inv (main s) /\ searching s = false /\
+    keys_run ceq_tab s (ks ++ [KCg]) = Some s' /\ searching s' = false /\ main s' <> main s.
+Proof.
+  exists (mksess (mksbuf [[97]; [98]] 1 0) [] 0 [] 0 false false false), [KCr; KChar 97; KCr].
+  eexists. split; [|split; [reflexivity|split; [vm_compute; reflexivity|split; [reflexivity|]]]].
   - unfold Inv. vm_compute. repeat split; try reflexivity; intro; discriminate.
   - vm_compute. discriminate.
 Qed.
